@@ -12,7 +12,7 @@ from vt.util import V, EPS, case_rng, rng_for
 PROPERTY = "C09"
 TITLE = "Hit bookkeeping under every history"
 NEEDS_ICONTRACT = True
-TECHNIQUE = ("runtime monitoring: operation histories on antennas and antenna systems against a shadow model of the received signals (bit-exact touching windows), a noise-epoch dictionary, recorded front-end grids, and icontract class invariants (also evaluated while the repository's own tests run)")
+TECHNIQUE = ("runtime monitoring: operation histories on antennas and antenna systems against a shadow model of the received signals (bit-exact touching windows), a noise-epoch dictionary, recorded front-end grids, icontract class invariants (also evaluated while the repository's own tests run), and for function-backed signals a logical-step monitor (copies of the antenna object made by the queries, counted through __deepcopy__)")
 ANCHORS = ["pyrex.antenna:Antenna.waveforms", "pyrex.antenna:Antenna.all_waveforms", "pyrex.antenna:Antenna.full_waveform",
            "pyrex.antenna:Antenna.make_noise", "pyrex.antenna:Antenna.clear", "pyrex.antenna:Antenna.receive",
            "pyrex.detector:AntennaSystem.signals", "pyrex.detector:AntennaSystem.waveforms", "pyrex.detector:AntennaSystem.all_waveforms",
